@@ -3,7 +3,7 @@
   for EVERY byte string handed to `NewVerifyStream`.
 
   The packets are those the front end produced from the bytes (`Front.readSig`:
-  `Wire`, else go-codec's typed decoding `Codec`); the verifier's state is
+  go-codec's typed decoding `Codec`; `Wire` only where `Codec` says unmodelled); the verifier's state is
   `⟨h.version, P.hash hb, pk⟩` for the header `h` (bytes `hb`) decoded from them
   and the key `pk` the keyring returned for `h.senderPublic`.
 
@@ -59,11 +59,12 @@ theorem C06_clean_end_iff_complete_bytes (P : Prims) (valid : Validator) (hvalid
     exact (Ver.run_ok_iff P ⟨h.version, P.hash hb, pk⟩ ps.items ps.tail 1).mpr hc
 
 /-- the all-at-once form (`Verify`) on what the front end read returns a message
-    only if the streaming form on the same bytes ended cleanly -/
+    only if the streaming form on the same bytes ended cleanly, and then what the
+    streaming form released, attributed to the signer it reports -/
 theorem C06_all_at_once_only_if_clean_bytes (P : Prims) (valid : Validator) (kr : Keyring) (msg : Bytes)
     (hr : HeaderRead SigHeader) (ps : PStream SigBlock) (hread : Front.readSig msg = .ok (hr, ps))
     (k m : Bytes) (h : Sign.verifyAll P valid kr hr ps = .ok (k, m)) :
-    ∃ r, Sign.verifyBytes P valid kr msg = .ok r ∧ r.err = none ∧ r.released = m := by
+    ∃ r, Sign.verifyBytes P valid kr msg = .ok r ∧ r.err = none ∧ r.released = m ∧ r.signer = some k := by
   refine ⟨_, sig_verifyBytes_of_read hread, ?_⟩
   unfold Sign.verifyAll at h
   generalize Sign.verifyStream P valid kr hr ps = r at h
